@@ -756,14 +756,16 @@ func (in *Interp) assume(c *Term) {
 }
 
 func (in *Interp) assert(c *Term, id string, caller *frame) {
+	if in.replaying() {
+		// already decided (and counted) by the parent path under the same prefix
+		if !c.IsTrue() {
+			in.addPCAssumed(c)
+		}
+		return
+	}
 	in.ex.noteObligation(id)
 	if c.IsTrue() {
 		in.ex.noteDischarged(id, true)
-		return
-	}
-	if in.replaying() {
-		// already decided by the parent path under the same prefix
-		in.addPCAssumed(c)
 		return
 	}
 	neg := in.tt.Not(c)
